@@ -130,9 +130,11 @@ class FeatureMonitor(taps.Monitor):
         same = bool((old_shape == new_shape).all())
         if f in SAME_SIZE and not same:
             ctx.fail("size_preserving_feature_changed_the_size", cls=f)
-        if list(r.landmarks.keys()) != list(x.landmarks.keys()) if (x.has_landmarks or r.has_landmarks) else False:
-            ctx.fail("feature_lost_landmark_groups", cls=f, mech=cls, before=list(x.landmarks.keys()), after=list(r.landmarks.keys()))
-        elif x.has_landmarks:
+        # (the group names are read off the managers themselves, not through the has_landmarks shortcut)
+        xk_, rk_ = list(x.landmarks.keys()), list(r.landmarks.keys())
+        if rk_ != xk_:
+            ctx.fail("feature_lost_landmark_groups", cls=f, mech=cls, before=xk_, after=rk_)
+        elif xk_:
             for k in x.landmarks:
                 o, n = x.landmarks[k], r.landmarks[k]
                 if same:
@@ -145,7 +147,7 @@ class FeatureMonitor(taps.Monitor):
                         ctx.fail("feature_changed_a_landmark_class", cls=f)
                         break
                     exp = o.points * (new_shape / old_shape)
-                    if _amax(n.points - exp) > 1e-9 * max(1.0, np.abs(exp).max()):
+                    if n.points.shape != exp.shape or (exp.size and _amax(n.points - exp) > 1e-9 * max(1.0, np.abs(exp).max())):
                         ctx.fail("landmarks_not_rescaled_to_the_new_size", cls=f, mech=cls, old_shape=old_shape, new_shape=new_shape)
                         break
         if masked and isinstance(r, mi.MaskedImage):
@@ -204,6 +206,12 @@ def make_image(rng, cls, shp, C, dtype, mask_kind, constant=None):
     elif constant == "channel":
         px[rng.integers(0, C)] = 2.5
     im = mi.Image(px) if cls == "Image" else mi.MaskedImage(px, mask=gen.mask(rng, shp, mask_kind))
+    if rng.random() < 0.08:
+        # template groups that hold no point yet: groups all the same (the result still carries them, under their names)
+        import menpo.shape as _ms18b
+        for g in range(int(rng.integers(1, 3))):
+            im.landmarks["empty%d" % g] = _ms18b.PointCloud(np.zeros((0, len(shp))))
+        return im
     for g in range(int(rng.integers(0, 3))):
         s = gen.shape(rng, None, d=len(shp), n=int(rng.integers(3, 7)))
         s.points = rng.uniform(0, 1, s.points.shape) * (np.array(shp) - 1)
